@@ -1,4 +1,5 @@
 import Tw.Proofs.ConnTimed
+import Tw.Proofs.ConnFair
 import Tw.Proofs.ConnTimers7
 import Tw.Proofs.ConnTokens7
 
@@ -94,6 +95,33 @@ example : admissible (World.init proto7) busy7 = true := by decide +kernel
 example : ((run (World.init proto7) busy7).map fun w =>
     ((online w.a.conn).isSome && (online w.b.conn).isSome, w.settled)) = some (true, false) := by decide +kernel
 example : (((run (World.init proto7) busy7).bind (timedRounds () 4)).map World.settled) = some true := by
+  decide +kernel
+
+theorem onlineW7 (sched : List (Move proto7)) (w : World proto7)
+    (hadm : admissible (World.init proto7) sched = true) (hrun : run (World.init proto7) sched = some w)
+    {oa ta ob tb : Nat} {ca cb : Online} (ha : w.a.conn.state = .online oa ta ca)
+    (hb : w.b.conn.state = .online ob tb cb) : OnlineW iface7 (oa, ta) (ob, tb) w := by
+  have hw := run_inv sim7 sched _ w (init_inv sim7) hadm hrun
+  have ht := run_loct loct7 sched _ w (init_loct loct7) hrun
+  have hg := agree7_run sched _ w agree7_init hrun
+  have hab : ta = ob := hg.1.agree hg.2 (by rw [ha]; rfl) (by rw [hb]; rfl)
+  have hba : tb = oa := hg.2.agree hg.1 (by rw [hb]; rfl) (by rw [ha]; rfl)
+  refine ⟨hw, ht, ⟨ca, w.a.conn.send, ?_⟩, ⟨cb, w.b.conn.send, ?_⟩, hab, hba⟩
+  · show w.a.conn = ⟨.online oa ta ca, w.a.conn.send⟩
+    rw [← ha]; rfl
+  · show w.b.conn = ⟨.online ob tb cb, w.b.conn.send⟩
+    rw [← hb]; rfl
+
+/-- **C02 (c), timed, 0.7, online phase, every datagram of the suffix delivered** -/
+theorem fair_progress7 (draws : List Nat) (sched : List (Move proto7)) (w : World proto7)
+    (hadm : admissible (World.init proto7) sched = true) (hrun : run (World.init proto7) sched = some w)
+    {oa ta ob tb : Nat} {ca cb : Online} (ha : w.a.conn.state = .online oa ta ca)
+    (hb : w.b.conn.state = .online ob tb cb) :
+    ∃ s', fairRoundsT draws () 4 (FairState.start w) = some s' ∧ s'.w.quiescent :=
+  fair_progress iface7 Conn7.cfg_ok sim7 loct7 draws () (onlineW7 sched w hadm hrun ha hb)
+
+example : (((run (World.init proto7) busy7).bind fun w =>
+    fairRoundsT (P := proto7) [] () 4 (FairState.start w)).map fun s => s.w.settled) = some true := by
   decide +kernel
 
 end Tw.NetSim.P7
